@@ -197,3 +197,38 @@ def _in_annotation(m, n) -> bool:
             return False
         cur = par
     return False
+
+
+# ---------------------------------------------------------------- oriented comparisons
+_FLIP = {"<": ">", "<=": ">=", ">": "<", ">=": "<=", "==": "==", "!=": "!="}
+_OPS = {ast.Lt: "<", ast.LtE: "<=", ast.Gt: ">", ast.GtE: ">=", ast.Eq: "==", ast.NotEq: "!="}
+_EVAL = {"<": lambda a, b: a < b, "<=": lambda a, b: a <= b, ">": lambda a, b: a > b, ">=": lambda a, b: a >= b,
+         "==": lambda a, b: a == b, "!=": lambda a, b: a != b}
+
+
+def var_cmp(e, folder):
+    """A single comparison between a non-constant expression and an integer constant, oriented with the expression on
+    the left whatever way round the source (or its canonical form) has it: (expression node, op text, constant) or None."""
+    if not (isinstance(e, ast.Compare) and len(e.ops) == 1 and type(e.ops[0]) in _OPS):
+        return None
+    op = _OPS[type(e.ops[0])]
+    l, r = e.left, e.comparators[0]
+    cl, cr = folder.try_fold(l), folder.try_fold(r)
+    if isinstance(cr, int) and not isinstance(cr, bool) and not isinstance(cl, int):
+        return l, op, cr
+    if isinstance(cl, int) and not isinstance(cl, bool) and not isinstance(cr, int):
+        return r, _FLIP[op], cl
+    return None
+
+
+def same_int_test(op1, c1, op2, c2) -> bool:
+    """`x op1 c1` and `x op2 c2` are true for the same integers (decided on the breakpoints)."""
+    pts = {c + d for c in (c1, c2) for d in (-2, -1, 0, 1, 2)}
+    return all(_EVAL[op1](x, c1) == _EVAL[op2](x, c2) for x in pts)
+
+
+def is_int_test(e, folder, var_text: str, op: str, c: int) -> bool:
+    """e is a comparison of the expression spelled `var_text` with a constant that is equivalent to `var_text op c`."""
+    from sa.load import norm as _norm
+    v = var_cmp(e, folder)
+    return v is not None and _norm(v[0]).replace(" ", "") == var_text.replace(" ", "") and same_int_test(v[1], v[2], op, c)
